@@ -17,6 +17,22 @@ CHECKS = {
           "cspars.cpp on every run by bit-level comparison of op-script outputs), harness/generator/differ, g++."),
     technique="Coq proof (refinement + invariant) over a hand-written model, model-vs-code differential correspondence via vm_compute"),
 }
+CHECKS["C03"] = dict(
+    category="proof",
+    text=("Coq theorems over a statement-by-statement model of ESolver::AnalyzeProblem: for every mesh and element order the "
+          "assembled residual rows are minus the sum of the elements' local residuals; rows of prescribed nodes force the "
+          "prescribed value and rows of free nodes keep the un-eliminated Galerkin residual; the element matrix is the "
+          "linear-triangle Galerkin stiffness of div(eps grad V) (planar/axisymmetric, anisotropic), shape functions are nodal, "
+          "stiffness columns sum to zero (charge balance). The model's binary64 reading reproduces the real solver's assembled "
+          "matrix, right-hand side, flags and conductor charges bit for bit on generated problems; an independent SI-unit "
+          "Galerkin assembly (numpy) checks the written potentials, floating-conductor charge and reported charges. "
+          "Partial: no theorem yet for the floating-conductor/point-charge/conductor-row finishing steps (correspondence and "
+          "oracle only), rounding and PCG termination not proved."),
+    design_ref="DESIGN.md §5 C03",
+    note=("Trusted: Coq kernel + real-number axioms; hand-written model tied to esolver.cpp by bit-level correspondence of the "
+          "assembled system on every run; Triangle, file readers and Cuthill renumbering are not modelled (model starts from "
+          "the solver's in-memory mesh dumped by harness/h_esolver.cpp); numpy oracle; g++."),
+    technique="Coq proof over a hand-written assembly model + bit-exact model/implementation correspondence + independent Galerkin oracle")
 PENDING = {}
 def main():
     props = [json.loads(l) for l in open(os.path.join(V, "properties.jsonl"))]
